@@ -5,6 +5,7 @@ import binascii
 import collections.abc
 import copy
 import inspect
+import math
 import re
 import uuid
 
@@ -350,6 +351,9 @@ class FloatProperty(Property):
             value = float(value)
         except Exception:
             raise ValueError("must be a float.")
+
+        if math.isnan(value) or math.isinf(value):
+            raise ValueError("must be a finite number.")
 
         if self.min is not None and value < self.min:
             msg = "minimum value is {}. received {}".format(self.min, value)
